@@ -80,7 +80,7 @@ let handle line =
      | CFatal er -> "FATAL " ^ err_class er ^ " " ^ err_detail er)
   | "Q" ->
     let cs = next_list st next_clause in
-    (match is_possible cs with PTrue -> "T" | PFalse -> "F" | PValueError -> "V")
+    (match is_possible cs with PTrue -> "T" | PFalse -> "F" | PValueError -> "V" | PAmbiguous -> "A")
   | "D" ->
     let u = next_universe st in
     let allow_pre = next_bool st in
